@@ -297,6 +297,16 @@ class Formula:
                 p = self.compile(e.left)
                 want = r.value if isinstance(e.ops[0], (ast.Eq, ast.Is)) else not r.value
                 return lambda a: p(a) == want
+            # (boolean formula) == / != (boolean formula): equivalence / exclusive or
+            l = e.left
+
+            def boolish(x):
+                return isinstance(x, (ast.Compare, ast.BoolOp)) or (isinstance(x, ast.UnaryOp) and isinstance(x.op, ast.Not))
+
+            if (boolish(l) and (boolish(r) or self.leaf(r) is not None)) or (boolish(r) and self.leaf(l) is not None):
+                p, q = self.compile(l), self.compile(r)
+                same = isinstance(e.ops[0], (ast.Eq, ast.Is))
+                return lambda a: (bool(p(a)) == bool(q(a))) == same
         return self._opaque(e)
 
     def assignments(self):
